@@ -1506,3 +1506,76 @@ func runBitmapWordCopies(c *Ctx, rule string) {
 	}
 	c.extra("c03_bitmap_word_copies", n)
 }
+
+// ---- C13-M3: Snapshot.Copy shares no map with the snapshot it copies, and copies every map.
+func runSnapshotCopyDeep(c *Ctx, rule string) {
+	p := c.P
+	c.Rule(rule, "Snapshot.Copy is deep at the level the mutators write: every map field of commits.Snapshot is populated element by element (or cloned) in a fresh snapshot, and no map of the receiver is stored into the copy — the copies handed to patches and listers never alias the cached snapshot")
+	fn := p.Func("(*lake/commits.Snapshot).Copy")
+	st, _ := func() (*types.Struct, bool) {
+		t := p.Type("lake/commits", "Snapshot")
+		if t == nil {
+			return nil, false
+		}
+		s, ok := t.Underlying().(*types.Struct)
+		return s, ok
+	}()
+	if fn == nil || st == nil {
+		c.Undecided(rule, "(*lake/commits.Snapshot).Copy", "anchor does not resolve")
+		return
+	}
+	recv := fn.Params[0]
+	fromRecv := func(v ssa.Value) bool {
+		u, ok := v.(*ssa.UnOp)
+		if !ok {
+			return false
+		}
+		fa, ok := u.X.(*ssa.FieldAddr)
+		return ok && fa.X == ssa.Value(recv)
+	}
+	populated := map[string]bool{}
+	aliased := ""
+	for _, b := range fn.Blocks {
+		for _, in := range b.Instrs {
+			switch x := in.(type) {
+			case *ssa.MapUpdate:
+				if u, ok := x.Map.(*ssa.UnOp); ok {
+					if fa, ok := u.X.(*ssa.FieldAddr); ok && fa.X != ssa.Value(recv) && namedOf(fa.X.Type()) == "lake/commits.Snapshot" {
+						populated[fieldName(fa.X.Type(), fa.Field)] = true
+					}
+				}
+			case *ssa.Store:
+				if fa, ok := x.Addr.(*ssa.FieldAddr); ok && namedOf(fa.X.Type()) == "lake/commits.Snapshot" {
+					if fromRecv(x.Val) {
+						aliased = fieldName(fa.X.Type(), fa.Field)
+					} else if call, ok := x.Val.(*ssa.Call); ok && strings.HasSuffix(calleeName(&call.Call), "maps.Clone") {
+						populated[fieldName(fa.X.Type(), fa.Field)] = true
+					}
+				}
+				// *out = *s
+				if u, ok := x.Val.(*ssa.UnOp); ok && u.X == ssa.Value(recv) {
+					aliased = "(whole struct)"
+				}
+			case *ssa.Return:
+				if len(x.Results) == 1 && x.Results[0] == ssa.Value(recv) {
+					aliased = "(the receiver itself)"
+				}
+			}
+		}
+	}
+	for i := 0; i < st.NumFields(); i++ {
+		f := st.Field(i)
+		if _, ok := f.Type().Underlying().(*types.Map); !ok {
+			continue
+		}
+		construct := "(*lake/commits.Snapshot).Copy field " + f.Name()
+		switch {
+		case aliased == f.Name() || strings.HasPrefix(aliased, "("):
+			c.Fail(rule, construct, fn.Pos(), "the copy shares this map with the receiver ("+aliased+"): a patch, delete or compaction that works on the copy then changes the cached snapshot of an existing commit, so readers of that commit see objects come and go")
+		case !populated[f.Name()]:
+			c.Fail(rule, construct, fn.Pos(), "this map is not copied: the copy starts without the commit's "+f.Name()+", so whatever is computed from it (merge base, delete, compaction) silently drops them")
+		default:
+			c.OK(rule, construct, fn.Pos(), "copied element by element into a fresh map")
+		}
+	}
+}
